@@ -10,12 +10,12 @@ TRUST = ("Coq 8.16.1 kernel + vm_compute; hand-written Gallina model tied to /re
 
 CLAIMED = {
     "C19": dict(
-        technique="Coq proof (go_ident legality/identity/partial injectivity, local and gensym name injectivity/disjointness, refutation witnesses) + translator-generated keyword and gensym-prefix tables + exhaustive differential correspondence of go_ident inside coqc",
+        technique="Coq proof (go_ident legality/identity/partial injectivity, local and gensym name injectivity/disjointness, refutation witnesses) + translator-generated keyword and gensym-prefix tables + exhaustive differential correspondence of go_ident inside coqc; program level: one adversarial identifier at a time (Go keywords and predeclared names, runtime helpers, temporaries, names of generated helpers) in a program using every kind of named entity, and programs that name structurally confusable types: the Go checker model must accept the result and it must behave like the plain-named program, which in turn must mean what its typed source says",
         text="Machine-checked theorems about a Gallina model of go_ident, gensym naming and local renaming (8 pinned theorems, no axioms), "
              "tied to mangle.rs by regenerated tables and by comparing the model with the real go_ident on every string over a 9-symbol alphabet up to length 4 (5 in thorough) plus keyword, boundary and random Unicode cases; "
              "the property's statement (legal identifier, not a Go keyword, verbatim user identifiers, no collision on letters/digits/#) is additionally evaluated on the implementation's outputs. Known collisions are refutation theorems and known findings.",
         design_ref="DESIGN.md §4 C19",
-        note=TRUST + " Type-name helpers (encode_ty, go_type_name_for) are not yet in the model.",
+        note=TRUST + " Type-name helpers (encode_ty, go_type_name_for) are not in the Coq model; distinctness of the names they give is explored per program.",
     ),
 }
 
